@@ -325,6 +325,7 @@ def run(ctx):
         sub = [traces[i] for i in rej]
         v2 = tlc.validate_traces(wd, 'EventBusTrace', 'TraceDev.cfg', sub, diagnose=False)
         ctx.add_trace_verdict('EventBusTrace(Deviations={FastPathDrop})', v2, 0)
+        tlc.finish_diagnosis(wd, 'EventBusTrace', 'Trace.cfg', traces, v, skip={rej[k] for k in v2.accepted})
         for k, i in enumerate(rej):
             info = v.rejected[i]
             if k in v2.accepted:
